@@ -1,5 +1,6 @@
 import FastgoModel.Proofs.ReaderProps
 import FastgoModel.Reader.Example
+import FastgoModel.Proofs.StreamFrame
 /-!
 # C05 — after io.EOF the source is positioned exactly at the end of the DEFLATE stream
 
@@ -47,8 +48,36 @@ example :
     run.1.finished = true ∧ run.1.bio.taken = 4 ∧ run.1.bio.stream = [9, 9] := by
   decide
 
+/-! ### the specification side of C05
+  `C05_spec_stream_frame` (= `inflate_frame`): a stream that passes the executable check `checkStream` (the specification
+  decodes it to the end, every block declaring prefix-free codes; the `S` correspondence applies it to whole streams the
+  real Writers emit) decodes to the same data WHATEVER bytes follow it, and the bits left over are its own padding (< 8
+  bits) followed by exactly those bytes. `C05_spec_inflater_exact`: hence the specification inflater, used as the inflater
+  of the container Reader models, yields the payload and leaves the source exactly behind the stream (`Inflater.Exact`,
+  the contract the C06/C08 container theorems assume). Together with `C05_position_after_eof` (the Reader model has taken
+  ceil(endBit/8) bytes at io.EOF) and the F correspondence (the real Reader's consumption at io.EOF equals the position
+  the specification computes) this closes C05 for every stream the check accepts. -/
+theorem C05_spec_stream_frame (mode : Spec.Mode) (bytes more : List UInt8) (hc : Spec.checkStream mode bytes = true) :
+    ∃ out rest st st', Spec.inflate mode [] bytes = .done out rest st ∧ rest.length < 8 ∧
+      Spec.inflate mode [] (bytes ++ more) = .done out (rest ++ Spec.bytesToBits more) st' :=
+  Spec.inflate_frame mode bytes more hc
+
+theorem C05_spec_inflater_exact (mode : Spec.Mode) (body : List UInt8) (hc : Spec.checkStream mode body = true) :
+    ∃ payload, (Container.specInflater mode).Exact body payload ∧ Container.specInflater mode body = some (payload, []) :=
+  Container.specInflater_exact mode body hc
+
+/-! Non-vacuity: the 18 bytes fastgo emits for `Write("abcabcabcabc"); Close()` at level 1 pass `checkStream`; followed by
+    other bytes the specification inflater still yields the 12 bytes and leaves exactly those bytes. -/
+def realStream : List UInt8 := [0x35,0xc2,0x31,0x0d,0x00,0x00,0x00,0x83,0x30,0xad,0x1b,0xfe,0x3d,0x70,0x91,0x74,0x27,0x08]
+
+example : Spec.checkStream .strict realStream = true ∧
+    Container.specInflater .strict (realStream ++ [1, 2, 3]) = some ("abcabcabcabc".toUTF8.toList, [1, 2, 3]) := by
+  decide +kernel
+
 end Fastgo.Reader
 
+#print axioms Fastgo.Reader.C05_spec_stream_frame
+#print axioms Fastgo.Reader.C05_spec_inflater_exact
 #print axioms Fastgo.Reader.C05_invariant
 #print axioms Fastgo.Reader.C05_exact
 #print axioms Fastgo.Reader.C05_position_after_eof
